@@ -30,6 +30,7 @@ CFG = dict(
     outs=(),
     max_live=5,
     values="narrow",
+    setshape={(3,): ((3, 1),), (2, 2): ((4,),), (4,): ((2, 2),), (2,): ((1, 2),)},
 )
 WORLDS = {
     "x3": [("x", (3,), 0, False), ("y", (2,), 5, False)],
@@ -184,6 +185,12 @@ class Exec:
                         return
                 G = snap(impl)
                 continue
+            if kind == "setshape":
+                if impl.t[st[1]].shape != tuple(st[2]):
+                    self.failure = (i, st, "shape", st[1], "shape assignment had no effect")
+                    return
+                G = snap(impl)
+                continue
             # non-view op or in-place update
             used = [u for u in __import__("mc.hist", fromlist=["uses"]).uses(st)]
             must_none = set(u for u in used if u in leaf)
@@ -262,7 +269,7 @@ def run_task(task):
         f, model, nb = run_one(init, h, seed)
         acc.inc("evaluations")
         acc.inc("transitions", 1 if h else 0)
-        if f is None and h and not any(st[0] in ("set", "iop", "out", "bwall", "backward", "null_grad") for st in h):
+        if f is None and h and not any(st[0] in ("set", "iop", "out", "bwall", "backward", "null_grad", "setshape") for st in h):
             f = iteration_check(init, h, seed)
             acc.inc("iteration_checks")
         if f is not None:
@@ -320,7 +327,7 @@ def plan(tier, seed):
 
 def _fails(init, h, seed):
     f, _, _ = run_one(init, h, seed)
-    if f is None and h and not any(st[0] in ("set", "iop", "out", "bwall", "backward", "null_grad") for st in h):
+    if f is None and h and not any(st[0] in ("set", "iop", "out", "bwall", "backward", "null_grad", "setshape") for st in h):
         f = iteration_check(init, h, seed)
     return f
 
@@ -387,6 +394,30 @@ def m_cycle_through_stale_view_edge(v):
     return stale
 
 
-MATCHERS = {"inplace_on_view_of_base_with_grad": m_inplace_on_view_of_base_with_grad,
+def m_backward_through_stale_edge_raises(v):
+    """F-C07d (root cause shared with F-C09): an op recorded before a clear event emptied its input's consumer set is
+    missed by the reroute of a later in-place update / shape assignment and keeps pointing at the public tensor, whose
+    shape has meanwhile changed; backward() through that op raises a NumPy shape error instead of InvalidBackprop."""
+    f = v.get("failure") or {}
+    case = v.get("case") or {}
+    h = [tuple(tuplify(s)) for s in case.get("history", [])]
+    if f.get("kind") != "exception" or not h or h[-1][0] not in ("backward", "bwall"):
+        return False
+    if not any(s[0] in ("setshape",) for s in h[:-1]):
+        return False
+    init = [(i[0], tuple(i[1])) + tuple(i[2:]) for i in case["init"]]
+    ex = Exec(init, h[:-1], case.get("seed", 0))
+    if ex.failure is not None or ex.loud:
+        ex.close()
+        return False
+    stale = explore.has_stale_edge([ex.impl.t[n] for n in ex.impl.order])
+    ex.close()
+    del ex
+    gc.collect()
+    return stale
+
+
+MATCHERS = {"backward_through_stale_edge_raises": m_backward_through_stale_edge_raises,
+            "inplace_on_view_of_base_with_grad": m_inplace_on_view_of_base_with_grad,
             "cycle_through_stale_view_edge": m_cycle_through_stale_view_edge}
 from harness.C04 import presig  # noqa
